@@ -15,6 +15,8 @@ def run(tier, seed):
                  ["commonmark"] if tier == "quick" else ["commonmark", "cm+table+strike", "js-default"],
                  "pairs (A, B): A = all newline-terminated documents of <= 2 vocabulary lines that end closed, B = non-indented vocabulary documents; distinct = distinct (sig A, sig B)",
                  "closed A x non-indented B over the line vocabulary")
+    from .c17 import add_cons
+    add_cons(rep, "C07")
     rep.explanation = ("Mixed. Deductive: failing or silent leaf rules leave line/level/tokens untouched, successful ones restore level and parentType (frame part of the statement's "
                        "second sentence, for the leaf rules); DEAD obligations - parentType and tight, the two fields rules may leave changed, are dead at every rule entry: every silent dispatch is dominated by a store to parentType, every read is silent-guarded or preceded by a store (must-assign dataflow over the real source). Bounded: the concatenation law on the real parse over pairs from the line universe with the statement's side conditions.")
     rep.trusted_base = STD_TRUST
